@@ -10,7 +10,7 @@ CHECKS = {
     "C14": ("exploration",
             "in-process reference oracle over an exhaustive small scope, under ASan+UBSan and sbepp's assertion handler",
             "Every call of static_array_ref's assign_string/assign_range/assign/fill/strlen/strlen_r in a complete small "
-            "scope (all N<=3 quick / N<=5 thorough, all contents and inputs over {NUL,a,b}, all eos modes and overloads, "
+            "scope (all N<=3 quick / N<=6 thorough, all contents and inputs over {NUL,a,b}, all eos modes and overloads, "
             "char/int8/uint8 elements) is executed on the real header and compared byte-for-byte (with guard elements) "
             "against an independent reference; sanitizers watch the same executions. Exhaustive inside the scope, "
             "nothing outside it.",
